@@ -2127,6 +2127,12 @@ def r89(ctx, repo):
             for sw, old in ((MISSING, False), ("ShapeIn 2.2.0", False),
                             ("ShapeIn 2.2.0 | dclab 0.48.2", True),
                             ("ShapeIn 2.2.0 | dclab 0.48.3", False),
+                            # only the LAST dclab step decides (a newer
+                            # dclab recomputed the features)
+                            ("ShapeIn 2.0.6 | dclab 0.48.0 | dclab 0.62.7",
+                             False),
+                            ("ShapeIn 2.0.6 | dclab 0.62.7 | dclab 0.48.0",
+                             True),
                             ("dclab 0.30.0", True)):
                 attrs = {} if roi is MISSING else {"imaging:roi size x": roi}
                 files.append((f"roi size x {roi}, software {sw!r}",
@@ -2944,4 +2950,27 @@ TWINS = list(TWINS) + [
      ("                    md55m = util.hashfile(path_in, count=80)",
       "                    md55m = util.hashfile(path_in, blocksize=65536,\n"
       "                                          count=80)")),
+]
+
+# seed /verif/seeded/C08_16
+MUTANTS = list(MUTANTS) + [
+    ("inertia defect test looks at every dclab step of the pipeline "
+     "(seeded)", DEFECT,
+     ("            last_version = version_pipeline[-1]\n"
+      "            if last_version.startswith(\"dclab\"):\n"
+      "                dclab_version = last_version.split()[1]\n"
+      "                # The fix was implemented in 0.48.2, but this method "
+      "here\n"
+      "                # was only implemented in 0.48.3, so we might have "
+      "leaked\n"
+      "                # old data into new files.\n"
+      "                if parse_version(dclab_version) < parse_version("
+      "\"0.48.3\"):\n"
+      "                    return True\n",
+      "            for step in version_pipeline:\n"
+      "                if step.startswith(\"dclab\"):\n"
+      "                    dclab_version = step.split()[1]\n"
+      "                    if parse_version(dclab_version) < parse_version("
+      "\"0.48.3\"):\n"
+      "                        return True\n"), "R8.9"),
 ]
